@@ -217,10 +217,12 @@ class Check:
         print("%s %s: states=%d queries=%d obligations=%d/%d native_replays=%d wall=%.1fs" % (
             self.prop, self.tier, self.states, self.transitions, self.discharged, self.obligations,
             self.replays_ok, wall))
+        for i in self.inconclusive[:40]:
+            print("INCONCLUSIVE: %s" % (str(i)[:1500],))
+        if len(self.inconclusive) > 40:
+            print("INCONCLUSIVE: ... %d more" % (len(self.inconclusive) - 40))
         if self.violations:
             return 1
         if self.inconclusive:
-            for i in self.inconclusive:
-                print("INCONCLUSIVE: %s" % (i,))
             return 2
         return 0
